@@ -12,6 +12,7 @@ monitored node has failed.
 from __future__ import annotations
 
 import math
+import sys
 from dataclasses import dataclass
 
 
@@ -105,7 +106,10 @@ class PhiAccrualDetector:
         # Use erfc for numerical stability
         p = 0.5 * math.erfc(y / math.sqrt(2))
 
-        if p <= 0:
+        if p < sys.float_info.min:
+            # The tail probability is subnormal (or has underflowed): erfc has
+            # no precision left there and its result is no longer monotone, so
+            # phi would wobble by a few hundredths from one nanosecond to the next.
             return float("inf")
 
         return -math.log10(p)
